@@ -242,7 +242,7 @@ class PyBase:
         for v, r in zip(vectors, rs):
             t = self.msgs[v["ti"]]
             if r["st"] == "ok" and v["op"] == "ser":
-                out.append({"st": "ok", "rc": 0, "size": len(r["hex"]) // 2, "bytes": bytes.fromhex(r["hex"])})
+                out.append({"st": "ok", "rc": 0, "size": len(r["hex"]) // 2, "bytes": bytes.fromhex(r["hex"]), "live_hex": r.get("live_hex"), "live_stable": r.get("live_stable")})
             elif r["st"] == "ok":
                 out.append({"st": "ok", "rc": 0, "size": None, "value": pychild.unj(t, r["value"]), "reser": r.get("reser")})
             elif r["st"] == "none":
